@@ -10,6 +10,7 @@ import json, os, re, shutil, subprocess, sys, tempfile, time, hashlib, importlib
 from concurrent.futures import ThreadPoolExecutor
 
 VERIF = os.path.dirname(os.path.dirname(os.path.abspath(__file__)))
+OUT = os.environ.get('VERIF_OUT', VERIF)     # where evidence/ and replays/ are written (scratch dir for mutation self-test children)
 REPO = os.environ.get('VERIF_REPO', '/repo')
 CLANG_FLAGS = ['-std=c++17', '-DNDEBUG', '-I' + REPO + '/include', '-Wno-everything']
 CBMC_CHECKS = ['--bounds-check', '--pointer-check', '--div-by-zero-check', '--signed-overflow-check',
@@ -784,14 +785,14 @@ def _main(a, pid, run, seed, t0):
         sel = set(a.only.split(','))
         units = [u for u in units if u.name in sel]
     if not units: raise Undecided('no units')
-    os.makedirs(os.path.join(VERIF, 'replays'), exist_ok=True)
-    os.makedirs(os.path.join(VERIF, 'evidence'), exist_ok=True)
+    os.makedirs(os.path.join(OUT, 'replays'), exist_ok=True)
+    os.makedirs(os.path.join(OUT, 'evidence'), exist_ok=True)
     findings, fixed = load_known(pid, units)
 
     if a.replay:
         return do_replay_file(a.replay, run, prop)
     import glob
-    for f in glob.glob(os.path.join(VERIF, 'replays', pid + '_*')):
+    for f in glob.glob(os.path.join(OUT, 'replays', pid + '_*')):
         os.unlink(f)
     if False:
         return do_replay_file(a.replay, run, prop)
@@ -887,7 +888,7 @@ def _main(a, pid, run, seed, t0):
         # group failed obligations: one replay per unit (first failing obligation with a trace)
         fl = r['failed'][0]
         if r.get('is_lemma'):
-            rp = os.path.join(VERIF, 'replays', '%s_%s_lemma.json' % (pid, re.sub(r'\W+', '_', r['unit'])))
+            rp = os.path.join(OUT, 'replays', '%s_%s_lemma.json' % (pid, re.sub(r'\W+', '_', r['unit'])))
             json.dump({'property': pid, 'unit': r['unit'], 'inst': r['inst'], 'entry': entry, 'failed_obligation': fl['property'],
                        'description': fl['description'], 'native_replay': 'not-applicable (lemma over spec functions)',
                        'cbmc_trace_excerpt': trace_excerpt(fl.get('trace'))}, open(rp, 'w'), indent=1)
@@ -912,7 +913,7 @@ def _main(a, pid, run, seed, t0):
             if verdict == 'confirmed' and idx is not None:
                 inputs, gvals = cands[idx]
                 out = ('failing input = candidate %d (%s)\n' % (idx, "the verifier's counterexample" if idx == 0 else 'found by seeded mutation of the counterexample')) + out
-        rp = os.path.join(VERIF, 'replays', '%s_%s_%s.json' % (pid, re.sub(r'\W+', '_', r['unit']), re.sub(r'\W+', '_', fl['property'])[-60:]))
+        rp = os.path.join(OUT, 'replays', '%s_%s_%s.json' % (pid, re.sub(r'\W+', '_', r['unit']), re.sub(r'\W+', '_', fl['property'])[-60:]))
         json.dump({'property': pid, 'unit': r['unit'], 'inst': r['inst'], 'entry': entry, 'target': r['target'], 'mode': r['mode'],
                    'failed_obligation': fl['property'], 'description': fl['description'], 'location': fl['location'],
                    'all_failed_obligations': [(x['property'], x['description']) for x in r['failed']],
@@ -921,8 +922,13 @@ def _main(a, pid, run, seed, t0):
                    'cbmc_trace_excerpt': trace_excerpt(fl.get('trace'))}, open(rp, 'w'), indent=1)
         violations.append((r, rp, verdict))
 
+    mut_results = []
+    if a.tier == 'thorough' and not a.only and not violations and not os.environ.get('VERIF_NO_MUT'):
+        mut_results = mutation_selftest(pid, run)
     wall = time.time() - t0
-    write_evidence(pid, a.tier, seed, prop, results, lemma_results, kf_active, fixed, violations, wall, tv_results)
+    write_evidence(pid, a.tier, seed, prop, results, lemma_results, kf_active, fixed, violations, wall, tv_results, mut_results)
+    for m_ in mut_results:
+        print('mutation %-40s %s' % (m_['name'], m_['verdict']))
     for t in tv_results:
         print('translation-validation %-12s %-11s wrappers=%d inputs_compared=%d %s' % (t['inst'], t['status'], len(t['wrappers']), t['compared'], t['detail'][:200].replace('\n', ' ')))
 
@@ -972,7 +978,37 @@ def check_lemma(lm, run):
         res['why'] = (out + err)[-800:]
     return res
 
-def write_evidence(pid, tier, seed, prop, results, lemma_results, kf_active, fixed, violations, wall, tv_results=()):
+def mutation_selftest(pid, run):
+    """thorough tier: apply each catalogued single edit (mutations/<pid>.json) to a scratch copy of the headers and expect the
+    quick check to go red; results are recorded in the evidence (a mutation that stays green is a weakness of the contracts,
+    not a violation of the property)"""
+    path = os.path.join(VERIF, 'mutations', pid + '.json')
+    if not os.path.exists(path): return []
+    out = []
+    for m in json.load(open(path)):
+        d = tempfile.mkdtemp(prefix='mut_%s_' % pid, dir=os.environ.get('TMPDIR', '/tmp'))
+        try:
+            shutil.copytree(os.path.join(REPO, 'include'), os.path.join(d, 'include'))
+            p = os.path.join(d, 'include', m['file'])
+            s = open(p).read()
+            if s.count(m['old']) != 1:
+                out.append({'name': m['name'], 'verdict': 'catalogue entry does not apply to the current tree (old text occurs %d times)' % s.count(m['old'])}); continue
+            open(p, 'w').write(s.replace(m['old'], m['new']))
+            cmd = [os.path.join(VERIF, 'check'), pid, '--tier', 'quick'] + (['--only', ','.join(m['units'])] if m.get('units') else [])
+            env = dict(os.environ, VERIF_REPO=d, VERIF_OUT=os.path.join(d, 'out'), VERIF_NO_TV='1', VERIF_TIER='quick')
+            r = subprocess.run(cmd, env=env, stdout=subprocess.PIPE, stderr=subprocess.STDOUT, timeout=3600)
+            o = r.stdout.decode('utf-8', 'replace')
+            v = [l for l in o.split('\n') if l.startswith('VIOLATION')]
+            verdict = {0: 'MISSED (check stayed green)', 1: 'caught' + (' (no-failing-input-found)' if v and all('no-failing-input-found' in l for l in v) else ' (replay confirmed)'),
+                       2: 'undecided (exit 2)'}.get(r.returncode, 'rc=%d' % r.returncode)
+            out.append({'name': m['name'], 'file': m['file'], 'units': m.get('units'), 'verdict': verdict})
+        except Exception as e:
+            out.append({'name': m.get('name'), 'verdict': 'error: %r' % (e,)})
+        finally:
+            shutil.rmtree(d, ignore_errors=True)
+    return out
+
+def write_evidence(pid, tier, seed, prop, results, lemma_results, kf_active, fixed, violations, wall, tv_results=(), mut_results=()):
     meta = getattr(prop, 'META', {})
     proved_units = [r for r in results if r['status'] == 'proved' and not r['bounded']]
     bounded_units = [r for r in results if r['bounded']]
@@ -1001,6 +1037,7 @@ def write_evidence(pid, tier, seed, prop, results, lemma_results, kf_active, fix
             'known_findings_active': [k['what'] for k in kf_active],
             'fixed': fixed,
             'translation_validation': [{k: v for k, v in t.items()} for t in tv_results],
+            'mutation_selftest': list(mut_results),
             'not_covered': meta.get('not_covered', []),
             'explanation': meta.get('explanation', ''),
             'extraction': 'clang++ -ast-dump=json of /verif/inst/*.cpp against /repo/include (current working tree) -> engine/cxx2c.py -> C; contracts from /verif/contracts/*.spec and /verif/spec/*.h',
@@ -1009,7 +1046,7 @@ def write_evidence(pid, tier, seed, prop, results, lemma_results, kf_active, fix
         'wall_s': round(wall, 1),
         'violations': len(violations),
     }
-    json.dump(ev, open(os.path.join(VERIF, 'evidence', pid + '.json'), 'w'), indent=1)
+    json.dump(ev, open(os.path.join(OUT, 'evidence', pid + '.json'), 'w'), indent=1)
 
 def do_replay_file(path, run, prop):
     rp = json.load(open(path))
